@@ -56,3 +56,15 @@ Proof.
   destruct (raw_password u) as [rp|e4]; cbn [bind] in H; [discriminate|right; right; right; congruence].
 Qed.
 End R.
+(** str() succeeds exactly when the stored authority splits: whenever the four authority
+    parts can be derived (eagerly stored, or the lazy split of the stored authority
+    succeeds) the object has a string form; and a failure of str() is the failure of that
+    split, with its exception (ValueError, by C19_accessors). *)
+Theorem str_total_iff_authority (B : backend) (u : url) :
+  (exists m, netloc_parts u = Ok m) <-> (exists t, url_str B u = Ok t).
+Proof.
+  split.
+  - intros [m Hm]. unfold url_str, explicit_port, host_subcomponent, raw_user, raw_password, raw_host. rewrite Hm. cbn [bind].
+    destruct (m_port m) as [pt|]; [|now eexists]. destruct (opt_N_eqb _ _); now eexists.
+  - intros [t Ht]. unfold url_str, explicit_port in Ht. destruct (netloc_parts u) as [m|e]; [now exists m|discriminate].
+Qed.
